@@ -376,7 +376,7 @@ def variety_shapes(tier, pdims=(1, 2, 3), dims=(4, 5), types=True):
                 kvs = [kv] + [A.affine_kv(k, 1.0, 2.0) for k in base[pd][0][0][1:]]
             for rat in (False, True):
                 out.append(A.shape_desc(kvs, base[pd][0][1], rat, 3, 'coded', 'coded', normalize_kv=norm, variety='knots'))
-    return out + mixed_shapes(tier, pdims)
+    return out + mixed_shapes(tier, pdims) + pairwise_shapes(tier, pdims)
 
 
 def tiny_span_shapes(tier):
@@ -391,6 +391,99 @@ def tiny_span_shapes(tier):
         kv = [0.0] * (p + 1) + [0.3, 0.1 + 0.2] + [1.0] * (p + 1)
         out.append(A.shape_desc([kv, A.clamped_kv(1, [(0.5, 1)])], [p, 1], p == 2, 3, 'coded', 'coded', variety='tiny_span'))
         out.append(A.shape_desc([A.clamped_kv(2, []), kv], [2, p], p != 2, 3, 'coded', 'coded', variety='tiny_span'))
+    return out
+
+
+PAIRWISE_FACTORS = [
+    ('degree', [1, 2, 3, 5]),
+    ('size', ['min', 'small', 'large']),
+    ('knots', ['uniform', 'repeated', 'odd', 'range_kept']),
+    ('weights', [None, 'coded', 'equal5', 'extreme']),
+    ('net', ['coded', 'negfrac', 'large', 'tiny', 'coincident']),
+    ('dim', [3, 2, 4]),
+    ('types', [None, 'tuples', 'ints']),
+]
+
+
+def pairwise_rows():
+    """a covering array: every pair of levels of every two factors of PAIRWISE_FACTORS occurs in at least one row (greedy,
+    deterministic; about 25 rows instead of the 8640 of the full product)"""
+    import itertools
+    names = [n for n, _ in PAIRWISE_FACTORS]
+    levels = [l for _, l in PAIRWISE_FACTORS]
+    todo = set()
+    for a, b in itertools.combinations(range(len(names)), 2):
+        for x in range(len(levels[a])):
+            for y in range(len(levels[b])):
+                todo.add((a, x, b, y))
+    rows = []
+    while todo:
+        best, gain = None, -1
+        # candidates: start from an uncovered pair, complete the other factors greedily
+        a, x, b, y = min(todo)
+        row = {a: x, b: y}
+        for f in range(len(names)):
+            if f in row:
+                continue
+            bl, bg = 0, -1
+            for lv in range(len(levels[f])):
+                g = sum(1 for (p, q) in row.items() if (min(p, f), (q if p < f else lv), max(p, f), (lv if p < f else q)) in todo)
+                if g > bg:
+                    bl, bg = lv, g
+            row[f] = bl
+        for p, q in itertools.combinations(sorted(row), 2):
+            todo.discard((p, row[p], q, row[q]))
+        rows.append({names[f]: levels[f][row[f]] for f in range(len(names))})
+    return rows
+
+
+def _pairwise_direction(p, size, knots):
+    """(knot vector, normalize_kv) of one direction"""
+    n = p + 1 if size == 'min' else (p + 3 if size == 'small' else (9 if p <= 3 else 12))
+    m = n - p - 1
+    if m == 0 or knots == 'uniform':
+        kv = A.uniform_kv(p, n)
+    elif knots == 'repeated':
+        interior, vals, i, need = [], [0.25, 0.5, 0.75, 0.125, 0.875, 0.375, 0.625], 0, m
+        while need > 0:
+            k = min(2 if i % 2 == 0 else 1, p, need)
+            interior.append((vals[i], k))
+            need -= k
+            i += 1
+        kv = A.clamped_kv(p, interior)
+    elif knots == 'odd':
+        kv = A.clamped_kv(p, [((i + 1.0) / (m + 1.0) * 0.97 + 0.013, 1) for i in range(m)])
+    else:
+        kv = A.uniform_kv(p, n)
+    if knots == 'range_kept':
+        return A.affine_kv(kv, -5.0, 4.0), False
+    return kv, True
+
+
+def pairwise_shapes(tier, pdims=(1, 2, 3)):
+    """shapes from the covering array: every PAIR of unusual respects (degree x size x knot kind x weights x coordinates x
+    dimension x input types) occurs together in some curve and in some surface; volumes take the rows with small directions"""
+    out = []
+    rows = pairwise_rows()
+    for i, r in enumerate(rows):
+        p = r['degree']
+        kv, norm = _pairwise_direction(p, r['size'], r['knots'])
+        rat = r['weights'] is not None
+        extra = dict(variety='pairwise', tall=(r['size'] == 'large' or p >= 5))
+        if r['types']:
+            extra['input_types'] = r['types']
+        if not norm:
+            extra['normalize_kv'] = False
+        if 1 in pdims:
+            out.append(A.shape_desc([kv], [p], rat, r['dim'], r['net'], r['weights'] or 'ones', **extra))
+        small = [(1, A.clamped_kv(1, [(0.5, 1)])), (2, A.clamped_kv(2, []))][i % 2]
+        skv = small[1] if norm else A.affine_kv(small[1], 1.0, 2.0)
+        if 2 in pdims and r['dim'] != 2:
+            kvs, degs = ([kv, skv], [p, small[0]]) if i % 2 == 0 else ([skv, kv], [small[0], p])
+            out.append(A.shape_desc(kvs, degs, rat, r['dim'], r['net'], r['weights'] or 'ones', **extra))
+        if 3 in pdims and r['size'] != 'large' and p <= 3 and r['dim'] == 3 and i % 2 == 0:
+            s2 = A.clamped_kv(1, []) if norm else A.affine_kv(A.clamped_kv(1, []), 1.0, 2.0)
+            out.append(A.shape_desc([skv, kv, s2], [small[0], p, 1], rat, 3, r['net'], r['weights'] or 'ones', **extra))
     return out
 
 
